@@ -203,6 +203,8 @@ class Ruler(Generic[RuleFuncTv]):
         if isinstance(names, str):
             names = [names]
         result: list[str] = []
+        # invalidate first: an unknown name raises after earlier names were applied
+        self.__cache__ = None
         for name in names:
             idx = self.__find__(name)
             if (idx < 0) and ignoreInvalid:
@@ -226,6 +228,7 @@ class Ruler(Generic[RuleFuncTv]):
         """
         if isinstance(names, str):
             names = [names]
+        self.__cache__ = None
         for rule in self.__rules__:
             rule.enabled = False
         return self.enable(names, ignoreInvalid)
@@ -243,6 +246,8 @@ class Ruler(Generic[RuleFuncTv]):
         if isinstance(names, str):
             names = [names]
         result = []
+        # invalidate first: an unknown name raises after earlier names were applied
+        self.__cache__ = None
         for name in names:
             idx = self.__find__(name)
             if (idx < 0) and ignoreInvalid:
